@@ -251,7 +251,7 @@ def hxl(l):
 
 
 def model_line(case, repaired):
-    return "%s %d %s\n" % ("c" if case["mode"] == "c" else "n", 1 if repaired else 0, hexs(case["input"]))
+    return "%s %d %s\n" % ("c" if case["mode"] == "c" else "n", int(repaired), hexs(case["input"]))
 
 
 def parse_model(line, mode):
@@ -440,6 +440,10 @@ def case_json(c):
 
 
 def case_from_json(j):
+    if "input_hex" not in j and "hosts" in j:        # the long-run case is stored by its size only
+        n = int(j["hosts"])
+        return {"stream": "plain", "mode": "c", "hash_seed": 3, "recs": [("n%d" % i, "x") for i in range(1, n + 1)],
+                "input": "".join("n%d: x\n" % i for i in range(1, n + 1)).encode()}
     return {"stream": j["stream"], "mode": j["mode"], "hash_seed": j["hash_seed"],
             "input": bytes.fromhex(j["input_hex"]), "recs": [(t, b) for t, b in j["records"]]}
 
@@ -503,7 +507,11 @@ def run(ctx):
         # which form of the script is this?  (D21 repaired or not): decided on the real script, so that the
         # model mirrors either form; the ORACLE never depends on it
         p = subprocess.run(["perl", script], input=b"a: x\na: y", stdout=subprocess.PIPE, stderr=subprocess.PIPE)
-        repaired = b"y" in p.stdout
+        repaired = 1 if b"y" in p.stdout else 0
+        p = subprocess.run(["perl", script, "-c"], input=b"foo: x\n1foo: x\n", stdout=subprocess.PIPE,
+                           stderr=subprocess.PIPE)
+        if b"[-1]foo" not in p.stdout:
+            repaired += 2       # digit-free names are no longer given to comp (F19-EMPTYSTEM repaired)
         judge = Judge(ctx, script, pdsh, repaired)
         if ctx.replay:
             j = json.load(open(ctx.replay))
@@ -519,7 +527,8 @@ def run(ctx):
                 cases += subset_cases(["0", "00", "1", "01", "9", "10", "0x", "1x", "x", "00x"])
                 cases += subset_cases(["a1-ib", "a2-ib", "a02-ib", "a3", "a4", "b1a3", "b1a4", "a", "b-ib", "a03-ib"])
         dist = {"modes": {}, "streams": {}, "hosts_per_case": {}, "headers_expanded_by_pdsh": 0,
-                "bracketed_headers": 0, "process_launches": 0, "script_form": "D21-repaired" if repaired else "unchanged"}
+                "bracketed_headers": 0, "process_launches": 0, "script_form": {0: "unchanged", 1: "D21-repaired", 2: "EMPTYSTEM-repaired",
+                                                         3: "D21+EMPTYSTEM-repaired"}[repaired]}
         distinct = set()
         nshrunk = 0
         CH = 400
